@@ -184,7 +184,15 @@ func runC09(sc *c09Scenario) *Violation {
 				runtime.Gosched()
 			}
 		}()
-		defer func() { close(stopToggle); tw.Wait() }()
+		defer func() {
+			close(stopToggle)
+			done := make(chan struct{})
+			go func() { tw.Wait(); close(done) }()
+			select {
+			case <-done:
+			case <-time.After(2 * time.Second): // stuck behind a lock the client never released: not this clean-up's business
+			}
+		}()
 	}
 	total := 0
 	for g := range sc.Senders {
